@@ -118,6 +118,64 @@ def check(facts):
                             "chunk without a hit the reported index drifts, so the prefilter hands the matcher a position that is too early — "
                             "possibly inside a UTF-8 sequence" % (b.local_name(st["pl"]["l"]) or "_%d" % st["pl"]["l"], c, elem[h], st["line"], k),
                        facts.loc(fn, st["line"]))
+        # LANE: inside the word loop a hit found by testing byte k of the word (constant array index k) reports offset + k
+        for h, ns in loops.items():
+            if elem.get(h) not in SIZES or SIZES[elem[h]] == 1:
+                continue
+            dom = b.dom()
+            succ_ = b.succ()
+            exits = {y for x in ns if b.blocks[x]["t"]["k"] == "switch" for y in succ_.get(x, []) if y not in ns}
+            for bi in sorted(set(ns) | exits):
+                for st in b.blocks[bi]["s"]:
+                    if st["k"] != "assign" or st["pl"]["l"] != 0 or st["pl"]["p"] or st["rv"]["k"] != "agg" or str(st["rv"].get("variant")) != "Some":
+                        continue
+                    v = (st["rv"].get("ops") or [{}])[0]
+                    k_ = None
+                    if v.get("k") in ("copy", "move"):
+                        d = b.single_def(v["pl"]["l"])
+                        if d and d[2] == "assign" and d[3]["rv"]["k"] == "use":
+                            k_ = 0
+                        elif d and d[2] == "assign" and d[3]["rv"]["k"] in ("bin", "checked_bin") and str(d[3]["rv"]["op"]).startswith("Add"):
+                            k_ = b.const_of_operand(d[3]["rv"]["b"])
+                    if k_ is None:
+                        continue
+                    # the test that admits this return: nearest dominating switch inside the loop
+                    ctl = [x for x in dom[bi] if x in ns and x != bi and b.blocks[x]["t"]["k"] == "switch"]
+                    if not ctl:
+                        continue
+                    c = max(ctl, key=lambda x: len(dom[x]))
+                    lanes = set()
+                    seen = set()
+                    work = [b.blocks[c]["t"]["discr"]]
+                    while work:
+                        o = work.pop()
+                        if o.get("k") not in ("copy", "move"):
+                            continue
+                        for pr in o["pl"]["p"]:
+                            if isinstance(pr, dict) and "idx" in pr:
+                                cv = b.const_of_operand({"k": "copy", "pl": {"l": pr["idx"], "p": []}})
+                                if cv is not None and b.local_ty(o["pl"]["l"]).replace(" ", "").startswith("[u8;"):
+                                    lanes.add(cv)
+                                work.append({"k": "copy", "pl": {"l": pr["idx"], "p": []}})
+                        l_ = o["pl"]["l"]
+                        if l_ in seen:
+                            continue
+                        seen.add(l_)
+                        for d in b.defs().get(l_, []):
+                            if d[2] != "assign" or d[0] not in ns:
+                                continue
+                            rv = d[3]["rv"]
+                            work += [rv[x] for x in ("op", "a", "b") if isinstance(rv.get(x), dict)]
+                    if not lanes:
+                        continue
+                    nstr += 1
+                    key = "%s hit in byte %s of the word reports offset + %s" % (fn, sorted(lanes), k_)
+                    if lanes == {k_}:
+                        r.ok(key)
+                    else:
+                        r.fail(key, "the test of byte %s of the word returns offset + %s (line %s): the prefilter reports a byte that was "
+                                    "not the one tested — on non-ASCII text the matcher is started inside a character" % (sorted(lanes), k_, st["line"]),
+                               facts.loc(fn, st["line"]))
     if facts.config in ("default", "ip", "utf16", "pattern", "alloc"):
-        r.floor("chunked_scan_offset_steps", nstr, 3)
+        r.floor("chunked_scan_offset_steps", nstr, 1)   # the word loop; the byte loops over prefix / suffix may be iterator calls
     return r
